@@ -25,11 +25,11 @@ def decWrap (s : String) : Wrap :=
 
 def decFn (s : String) : Fn :=
   match s.splitOn ":" with
-  | [nm, np, nd, sf, ds, ti, ge, hb, ic, ut, ci, wo] =>
+  | nm :: np :: nd :: sf :: ds :: ti :: ge :: hb :: ic :: ut :: ci :: wo :: more =>
     { name := decStr nm, nparams := np.toNat!, ndefaults := nd.toNat!, suffix := decOpt sf,
       dsuffix := decList decStr "+" ds, tinst := decList decTInst "+" ti,
       generics := decList decOpt "+" ge, hasBuf := hb == "1", isCtor := ic == "1", usesT := ut == "1", cppIf := decOpt ci,
-      wrapOpt := if wo == "N" then none else some (decWrap wo) }
+      wrapOpt := if wo == "N" then none else some (decWrap wo), cfi := more == ["1"] }
   | _ => { name := [], nparams := 0, ndefaults := 0, suffix := none, dsuffix := [], tinst := [],
            generics := [], hasBuf := false, isCtor := false, usesT := false, cppIf := none }
 
@@ -55,6 +55,7 @@ def encGen : Gen → String
   | .defaultArg => "has_default_arg"
   | .cxxTemplate => "cxx_template"
   | .bufferify => "arg_to_buffer"
+  | .cfi => "arg_to_cfi"
   | .fortranGeneric => "fortran_generic"
 
 def encRec (sc : Scope) (r : Rec) : String :=
